@@ -19,7 +19,16 @@ def register(K):
     K.genops = dict(GP=GP, GN=GN, GERR=GERR, GINFO=GINFO, GARG=GARG)
 
     def utf8(eng, t):
-        return eng.utf8(t)
+        """the single byte of an opcode's code: pickletools gives `code` as a one-character str (the byte decoded as latin-1), and
+        Opcode.encode_opcode writes code.encode('latin-1'); (the name is historical: for the ASCII codes the two encodings agree)"""
+        s_ = z3.simplify(t)
+        if z3.is_string_value(s_):
+            from pyvc.sorts import bytes_lit
+            try:
+                return bytes_lit(s_.as_string().encode("latin-1"))
+            except Exception:  # noqa
+                pass
+        return eng.codec_fn("LATIN1", "enc")(t)
 
     def item_facts(eng, st, run, k, content):
         """assumed contract of genops for item k of this run"""
@@ -124,7 +133,11 @@ def register(K):
 
     @K.spec("utf8")
     def utf8_spec(eng, st, s_):
-        return V("bytes", eng.utf8(s_.t))
+        return V("bytes", utf8(eng, s_.t))
+
+    @K.spec("latin1")
+    def latin1_spec(eng, st, s_):
+        return V("bytes", utf8(eng, s_.t))
 
     # ---- Opcode construction (parse-time dispatcher Opcode.__new__ + Opcode.__init__) ----------------------------------------
     K.contract("fickle.Opcode.__new__",
@@ -277,7 +290,9 @@ def register_load(K):
         return V("bytes", o.read("stream.content", eng.as_ref(s_, st), Bytes))
 
     # the base encoder, verified for an opcode without argument: one code byte, nothing else
-    K.contract("fickle.Opcode.encode_opcode", params="self: fickle.Opcode", returns="bytes", pure=True, ensures=["result == utf8(self.info.code)"])
+    K.contract("fickle.Opcode.encode_opcode", params="self: fickle.Opcode", returns="bytes", pure=True, ensures=["result == latin1(self.info.code)"],
+               trusted="one line: self.info.code.encode('latin-1'); that it cannot raise needs the type invariant of pickletools.OpcodeInfo "
+                       "(code is one latin-1 character), an assumption about pickletools")
     K.contract("fickle.Opcode.encode_body", params="self: fickle.Opcode", returns="bytes", pure=True,
                raises={"NotImplementedError": "self.info.arg is not None and self.info.arg.n != 0"}, ensures=["len(result) == 0"])
     import copy
